@@ -134,7 +134,7 @@ package router
 //@   ghost okRes bool = false
 //@   oncall reserve: nRes = nRes + 1
 //@   aftercall reserve: okRes = ret0
-//@   oncall Copy: nGo = nGo + 1
+//@   oncall go: nGo = nGo + 1
 //@   modifies obj(r.prefetch.queue)
 //@   ensures [C19:reserve-first] nRes == 1
 //@   ensures [C19:spawn-only-if-reserved] (nGo == 1) == okRes && nGo <= 1
@@ -157,8 +157,8 @@ package router
 //@ func (r *router) handleReq(ctx context.Context, q *dnsmsg.Question, rc *RequestContext)
 //@   props C03 C10 C12
 //@   requires r != nil && q != nil && rc != nil && r.cache != nil && forall(k, 0, len(r.rules), r.rules[k] != nil)
-//@   requires r.queryCacheHitTotal != nil
-//@   modifies rc.Response.Msg, rc.Response.RuleIdx, rc.Response.Cached, rc.Response.IpMark
+//@   requires r.queryCacheHitTotal != nil && r.prefetch != nil && r.prefetch.queue != nil
+//@   modifies rc.Response.Msg, rc.Response.RuleIdx, rc.Response.Cached, rc.Response.IpMark, obj(r.prefetch.queue)
 //@   ensures rc.Response.Msg != nil && fresh(rc.Response.Msg) && wfMsg(rc.Response.Msg)
 //@   ensures [C12:no-upstream-opt] noOPT(rc.Response.Msg.Additionals)
 //@   ensures rc.Response.Msg.Additionals == nil || fresh(rc.Response.Msg.Additionals)
@@ -182,8 +182,8 @@ package router
 //@ func (r *router) handleReqMsg(ctx context.Context, m *dnsmsg.Msg, rc *RequestContext)
 //@   props C03 C10 C12
 //@   requires r != nil && m != nil && rc != nil && wfMsg(m) && r.cache != nil && forall(k, 0, len(r.rules), r.rules[k] != nil)
-//@   requires r.queryCacheHitTotal != nil && r.logger != nil
-//@   modifies rc.Response.Msg, rc.Response.RuleIdx, rc.Response.Cached, rc.Response.IpMark
+//@   requires r.queryCacheHitTotal != nil && r.logger != nil && r.prefetch != nil && r.prefetch.queue != nil
+//@   modifies rc.Response.Msg, rc.Response.RuleIdx, rc.Response.Cached, rc.Response.IpMark, obj(r.prefetch.queue)
 //@   ensures rc.Response.Msg != nil && wfMsg(rc.Response.Msg)
 //@   ensures [C09:packable] optSmall(rc.Response.Msg) && smallMsg(rc.Response.Msg)
 //@   ensures [C03:header] rc.Response.Msg.ID == old(m.ID) && rc.Response.Msg.Response && rc.Response.Msg.OpCode == old(m.OpCode)
@@ -231,7 +231,7 @@ package router
 //@ func (r *router) handleServerReq(m *dnsmsg.Msg, rc *RequestContext)
 //@   props C03
 //@   requires r != nil && m != nil && rc != nil && wfMsg(m) && r.cache != nil && forall(k, 0, len(r.rules), r.rules[k] != nil)
-//@   requires r.queryCacheHitTotal != nil && r.logger != nil && r.queryTotal != nil
+//@   requires r.queryCacheHitTotal != nil && r.logger != nil && r.queryTotal != nil && r.prefetch != nil && r.prefetch.queue != nil
 //@   modifies *
 //@   ensures [C03:always-a-response] rc.Response.Msg != nil && wfMsg(rc.Response.Msg)
 //@   ensures [C09:packable] optSmall(rc.Response.Msg) && smallMsg(rc.Response.Msg)
@@ -239,7 +239,7 @@ package router
 
 // ---- listeners: one response write per handled request ------------------------------------------------
 
-//@ spec func routerReady(r *router) bool = r != nil && r.cache != nil && forall(k, 0, len(r.rules), r.rules[k] != nil) && r.queryCacheHitTotal != nil && r.logger != nil && r.queryTotal != nil
+//@ spec func routerReady(r *router) bool = r != nil && r.cache != nil && forall(k, 0, len(r.rules), r.rules[k] != nil) && r.queryCacheHitTotal != nil && r.logger != nil && r.queryTotal != nil && r.prefetch != nil && r.prefetch.queue != nil
 // the payload size the client advertised: class of the last OPT record of the query, at least 512
 //@ spec func lastOPTAt(m *dnsmsg.Msg, k int) bool = 0 <= k && k < len(m.Additionals) && isOPT(m.Additionals[k]) && forall(j, k+1, len(m.Additionals), !isOPT(m.Additionals[j]))
 
